@@ -20,7 +20,7 @@ from vplib import sexpr, testsrc
 
 MANIFEST = dict(
     category="proof",
-    text="Coq theorems (props/C10.v): renaming_simulation — whenever the validator `is_renaming rho X X'` accepts, every function reachable from the entry, on every argument / captured environment / sequence of outside inputs (mapped through rho), runs in lock step in both programs on the VM model of executor.rs (vm/Vm.v): same fault, or rho-related next state / final value, with IsType and Equal verdicts computed from each program's own type_compatibility rows and canonical tuple ids (side condition checked by the validator on the real dumped tables; canonical ids via C13's shape theorem); renaming_covers_reachable; verdicts_commute; value_reemit — the instruction list value_to_instructions_from_cache emits for a process/resource/ref-free value pushes exactly that value (an imported %m / %m.f is the module's value); inject_function_captures modelled, its prefix proved to rebuild the captures. tree_shake and merge_bytecode themselves are validated per output, not modelled: the extracted validator runs on every real tree-shake and every real merge (behind 0-3 previously merged programs) of the corpus and of seeded mutations, and all packagings are run on the real VM and compared. The serde_json leg is only validated (field-wise equality of the round trip + run).",
+    text="Coq theorems (props/C10.v, all closed under the global context): renaming_simulation — whenever the validator `is_renaming rho X X'` accepts, every function reachable from the entry (renaming_covers_reachable), on every argument / captured environment / sequence of outside inputs (mapped through rho), runs in lock step in both programs on the VM model of executor.rs (vm/Vm.v): same fault, or rho-related next state / final value, with IsType and Equal verdicts COMPUTED from each program's own type_compatibility rows and canonical tuple ids (verdicts_commute; side condition checked by the validator on the real dumped tables; canonical ids via C13's shape theorem), under the hypothesis that tuple values reaching a run-time type test carry a tuple id with a Type::Tuple entry (C08's has_type_entry obligation); renaming_simulation_ext (verdicts as outside inputs, no hypothesis); wf_stable_under_renaming (C07's verifier certificate carries over to every mapped function); value_reemit — the instruction list value_to_instructions_from_cache emits for a process/resource/ref-free value, spliced anywhere, pushes exactly that value (an imported %m / %m.f is the module's value); inject_rebuilds_captures — the prefix inject_function_captures prepends rebuilds exactly the captures as locals (captures without nested capturing closures). tree_shake and merge_bytecode themselves are validated per output, not modelled: the extracted validator runs on every real tree-shake and every real merge (behind 0-3 previously merged programs) of the corpus and of seeded mutations; all packagings are run on the real VM and compared; the model of value_to_instructions_from_cache is compared with the real compiler's output. The serde_json leg is only validated (field-wise equality of the round trip + run).",
     design_ref="§5 C10",
     note="Trusted: Coq kernel; extraction (ExtrOcamlBasic) and the OCaml driver; the Rust harness (dump of Bytecode, reconstruction of rho — rho is untrusted input to the validator, a wrong rho can only cause a rejection); vm/Vm.v is the hand-written per-process model shared with C07 (tied to executor.rs by C07's trace correspondence); binaries are opaque handles there, so constant BYTES are checked by the validator but their allocation is an outside input. serde_json / serde derives are not modelled. `Instruction::Process` (REPL `@N`) is validated with tree_shake's reading (function index renamed); environment.rs remap_function leaves it alone, which is right for the only producer (the REPL passes an environment-space index and never tree-shakes) — see the report.",
     technique="Coq-verified renaming validator (simulation proof) + translation validation of every real tree-shake / merge output + real-VM differential runs of all packagings + import-vs-inline differential",
@@ -163,6 +163,12 @@ def run(ctx):
     srcs = [(o, s) for o, s in srcs if isinstance(s, str) and not IO_BUILTINS.search(s)]
     pool = [s for _, s in srcs if len(s) < 300 and "\n" not in s.strip()]
     lines, meta = [], []
+    for i, l in enumerate(corpus_lines("c10_cases.txt")):
+        items = sexpr.parse("(" + l + ")")
+        behind = next((x[1:] for x in items[1:] if isinstance(x, list) and x and x[0] == "behind"), [])
+        which = next((x[1] for x in items[1:] if isinstance(x, list) and x and x[0] == "merge"), "ts")
+        lines.append(l)
+        meta.append(("corpus:c10_cases#%d" % i, items[0], behind, which))
     for o, s in srcs:
         k = rng.choice([0, 1, 1, 2, 2, 3])
         # earlier programs: unrelated ones, sometimes the program itself or a mutation of it (dedup)
